@@ -436,17 +436,16 @@ Proof.
 Qed.
 
 (* the ghost: the item count at the last completed Sync, lowered by every later head truncation *)
-Fixpoint srun (t : table) (S : N) (hs : list hop) : table * N :=
-  match hs with
-  | [] => (t, S)
-  | h :: r =>
-      let t' := hnext maxsz encode t h in
-      let S' := match h, hstep maxsz encode t h with
-                | HOp OSync, Ok _ => t_items t'
-                | _, _ => N.min S (t_items t')
-                end in
-      srun t' S' r
-  end.
+Definition sstep (tS : table * N) (h : hop) : table * N :=
+  let t' := hnext maxsz encode (fst tS) h in
+  (t', match h with
+       | HOp OSync => match hstep maxsz encode (fst tS) h with
+                      | Ok _ => t_items t'
+                      | Err _ => N.min (snd tS) (t_items t')
+                      end
+       | _ => N.min (snd tS) (t_items t')
+       end).
+Definition srun (t : table) (S : N) (hs : list hop) : table * N := fold_left sstep hs (t, S).
 Fixpoint xguarded (t : table) (hs : list hop) : Prop :=
   match hs with [] => True | h :: r => xguard t h /\ xguarded (hnext maxsz encode t h) r end.
 
@@ -454,14 +453,14 @@ Lemma srun_inv hs : forall t S,
   maxsz < two32 -> DInv maxsz t -> XInv t -> S <= dh t -> hguarded maxsz encode t hs -> xguarded t hs ->
   let '(tf, Sf) := srun t S hs in DInv maxsz tf /\ XInv tf /\ Sf <= dh tf /\ tf = hrun maxsz encode t hs.
 Proof.
-  induction hs as [|h r IH]; intros t S Hmax HD HX HS HG HXg; cbn [srun hrun].
-  - repeat split; assumption.
+  unfold srun. induction hs as [|h r IH]; intros t S Hmax HD HX HS HG HXg; cbn [fold_left hrun].
+  - cbv iota beta. split; [exact HD|split; [exact HX|split; [exact HS|reflexivity]]].
   - destruct HG as [G1 G2]. destruct HXg as [X1 X2].
     destruct (xinv_hnext t h Hmax HD HX G1 X1) as (X' & Dm & Hs).
+    unfold sstep at 2. cbn [fst snd].
     apply IH; try assumption.
     + apply dinv_hnext; assumption.
-    + destruct h as [o|ci cd cm]; [destruct o|];
-        try (destruct (hstep maxsz encode t _); lia).
+    + destruct h as [o|ci cd cm]; [destruct o|]; try lia.
       unfold hnext in *. destruct (hstep maxsz encode t (HOp OSync)) as [t'|] eqn:E; [|lia].
       rewrite (Hs eq_refl t' eq_refl). lia.
 Qed.
@@ -471,16 +470,16 @@ Qed.
    the range of the reopened table *)
 Theorem table_synced_survive t0 hs ci cd (cm : bool) :
   maxsz < two32 -> init true = Ok t0 -> hguarded maxsz encode t0 hs -> xguarded t0 hs ->
-  let '(t, S) := srun t0 0 hs in
+  let '(t, sy) := srun t0 0 hs in
   cut_ok t ci cd ->
-  exists t', crash_reopen true t ci cd cm = Ok t' /\ S <= t_items t' /\ t_hidden t' <= t_hidden t.
+  exists t', crash_reopen true t ci cd cm = Ok t' /\ sy <= t_items t' /\ t_hidden t' <= t_hidden t.
 Proof.
-  intros Hmax Hi HG HXg.
+  intros Hmax Hini HG HXg.
   assert (HD0 : DInv maxsz t0) by (eapply dinv_init; eauto).
   assert (HX0 : XInv t0).
-  { vm_compute in Hi. inversion Hi; subst. unfold XInv, dh. cbn. repeat split; lia. }
+  { vm_compute in Hini. inversion Hini; subst. unfold XInv, dh. cbn. repeat split; lia. }
   pose proof (srun_inv hs t0 0 Hmax HD0 HX0 ltac:(lia) HG HXg) as P.
-  destruct (srun t0 0 hs) as [t S]. destruct P as (HD & (X1 & X2 & X3) & HS & _).
+  destruct (srun t0 0 hs) as [t sy]. destruct P as (HD & (X1 & X2 & X3) & HS & _).
   intros Hcut. destruct (open_crash_ok maxsz t ci cd cm HD Hcut) as (t' & E & HD' & O1 & O2 & O3 & O4 & _).
   exists t'. split; [exact E|].
   pose proof (dur_head_dh maxsz t (proj1 HD)) as Hdh. unfold dur_head in Hdh.
